@@ -381,10 +381,11 @@ func execTdel(line string, w []string) string {
 	if ok {
 		// property: the proposer is the validator the schedule names at the block's own timestamp among the proposers
 		// ELECTED for the block's term by the chain's own state (the true records, whatever the storage did during
-		// the check).  Judged when the block extends the tip (it continues the tip's term or opens a later one), or
-		// competes with a ledger block of its own term, or lies below start+3 (initial proposers).
+		// the check).  Judged when the block extends the tip (it continues the tip's term, opens a later one, or is
+		// stamped in an earlier term the ledger holds a block of), or competes with a ledger block of its own term, or
+		// lies below start+3 (initial proposers).
 		var rec *nRec
-		judged, F := true, int64(0)
+		judged, backdated, F := true, false, int64(0)
 		switch {
 		case h < start+3:
 			F = 0
@@ -397,6 +398,16 @@ func execTdel(line string, w []string) string {
 			}
 		case h == tip+1 && term > terms[tip]:
 			F = h
+		case h == tip+1 && term < terms[tip]:
+			// a block stamped in an EARLIER term than the tip's: the proposers of that term are those it was opened
+			// under, if the ledger holds a block of it (otherwise nothing on the chain says who they are: not judged)
+			judged = false
+			for j := start; j <= tip; j++ {
+				if terms[j] == term {
+					judged, backdated, F = true, true, j
+					break
+				}
+			}
 		default:
 			judged = false
 		}
@@ -423,6 +434,17 @@ func execTdel(line string, w []string) string {
 				key := "tdpos-accept-not-elected"
 				if fault != "-" {
 					key = "tdpos-accept-not-elected-under-read-fault"
+				}
+				if backdated {
+					// known finding: the block's term is over and the code elects anew from the tip instead of looking that
+					// term's proposers up.  Only that behaviour goes under the known key.
+					fresh, dec := init, true
+					if tip >= start+3 {
+						fresh, dec = elSpec(recAt(snaps, tip-3), init, pn)
+					}
+					if dec && pos < int64(len(fresh)) && fresh[pos] == prop {
+						key = "tdpos-accept-backdated-term"
+					}
 				}
 				out.Violate(xvlib.Violation{Key: key, What: fmt.Sprintf("tdpos CheckMinerMatch accepted a block of address #%d for slot (term %d, pos %d): the proposers elected for that term (snapshot of block %d, storage fault during the check: %q) are %v, the slot belongs to %s",
 					prop, term, pos, F-4, fault, set, who), Ops: []string{line}, Impl: []string{"accept"}})
@@ -548,10 +570,23 @@ func genTdel(rng *xvlib.Rng, emit func(string)) {
 			term = tipTerm - 1
 		}
 	}
-	// the snapshot the election of the candidate's term reads
+	// the snapshots that matter: the one the election of the candidate's term reads, the ones the tip's term and the
+	// candidate's own (possibly earlier) term were opened under, and the one a fresh election from the tip reads
+	firstOf := func(j int64) int64 {
+		F := j
+		for ; F > start && terms[F-1] == terms[j]; F-- {
+		}
+		return F
+	}
 	F := h
 	if hh := mini(h, tip); term == terms[hh] {
-		for F = hh; F > start && terms[F-1] == terms[hh]; F-- {
+		F = firstOf(hh)
+	}
+	anchors := []int64{F - 4, F - 4, firstOf(tip) - 4, tip - 3}
+	for j := start; j <= tip; j++ {
+		if terms[j] == term {
+			anchors = append(anchors, firstOf(j)-4)
+			break
 		}
 	}
 	S := F - 4
@@ -560,18 +595,16 @@ func genTdel(rng *xvlib.Rng, emit func(string)) {
 	}
 	var snaps []string
 	var recs []elSnap
-	e := S - int64(rng.Intn(3))
-	if e < 0 {
-		e = 0
-	}
-	for k := 0; k <= rng.Intn(3); k++ {
-		if rng.Chance(1, 8) && k == 0 {
-			e += 1 + int64(rng.Intn(2)) // nothing recorded at S
+	for k := 0; k <= rng.Intn(4); k++ {
+		e := anchors[rng.Intn(len(anchors))] + int64(rng.Intn(4)) - 2
+		if e < 0 {
+			e = 0
 		}
-		r := elRandRec(rng, int(pn))
-		recs = append(recs, elSnap{e, r})
-		snaps = append(snaps, fmt.Sprintf("%d@%s", e, elRecString(r)))
-		e += 1 + int64(rng.Intn(2))
+		recs = append(recs, elSnap{e, elRandRec(rng, int(pn))})
+	}
+	sort.SliceStable(recs, func(i, j int) bool { return recs[i].e < recs[j].e })
+	for _, r := range recs {
+		snaps = append(snaps, fmt.Sprintf("%d@%s", r.e, elRecString(r.rec)))
 	}
 	snapTok := strings.Join(snaps, "/")
 	if rng.Chance(1, 12) {
